@@ -38,7 +38,7 @@ ASSUMPTIONS = ['RMSD values are compared with a float64 Kabsch RMSD; the allowed
                '(4096 eps32 x summed squared coordinates per atom, propagated through the square root); minimality is demanded up to that '
                'tolerance; ties may be broken either way',
                'the simulated memory always leaves room for the longest file plus one frame (the equality case is outside the statement)']
-REACH_EXPECTED = ['multi_batch_reassign', 'single_batch_reassign', 'centers_as_trajectory', 'centers_as_list', 'two_topologies',
+REACH_EXPECTED = ['predict_on_trajectory', 'multi_batch_reassign', 'single_batch_reassign', 'centers_as_trajectory', 'centers_as_list', 'two_topologies',
                   'ragged_reassign_output', 'square_reassign_output', 'partition_square', 'partition_ragged', 'partition_after_mpi',
                   'length1_trajectory', 'center_on_first_frame', 'center_on_last_frame', 'more_centers_than_frames', 'predict_new_data', 'predict_after_refit', 'caller_edits_labels_']
 
@@ -388,6 +388,30 @@ def fam_assign(ctx):
         check_assign(a, d, D, 0.0, abs_tol=np.array([p_[1] for p_ in pairs]).max(axis=0) * 2)
         if K >= 2:
             ctx.nontrivial = True
+        if t.flag(1, 3):
+            # an estimator fitted on one trajectory assigns the frames of another one
+            nfit = t.irange(3, 12)
+            Xf = md.Trajectory(rs.rand(nfit, n_atoms, 3).astype('float32'), top)
+            kk = t.irange(1, min(4, nfit - 1))
+            algo = t.choice(('kcenters', 'hybrid'))
+            if algo == 'kcenters':
+                est = e['kcenters'].KCenters('rmsd' if t.flag() else md.rmsd, n_clusters=kk)
+            else:
+                est = e['hybrid'].KHybrid('rmsd', n_clusters=kk, kmedoids_updates=t.irange(0, 2), random_state=t.draw(100))
+            ctx.sut(est.fit, Xf)
+            Y = md.Trajectory(rs.rand(n, n_atoms, 3).astype('float32'), top)
+            ysnap = Y.xyz.copy()
+            res = ctx.sut(est.predict, Y)
+            cidx = [int(c) for c in est.center_indices_]
+            cs = [np.asarray(c.xyz[0]) for c in est.centers_]
+            require(len(cs) == len(cidx), 'center_count_mismatch', lambda: '%d centres, %d indices' % (len(cs), len(cidx)))
+            pairs = [rmsd64(ysnap, c_) for c_ in cs]
+            D = np.array([p_[0] for p_ in pairs])
+            check_assign(res.assignments, res.distances, D, 0.0, abs_tol=np.array([p_[1] for p_ in pairs]).max(axis=0) * 2)
+            ya, yb = np.asarray(Y.xyz, dtype=np.float64), ysnap.astype(np.float64)
+            require(ya.shape == yb.shape and np.allclose(ya - ya.mean(axis=1, keepdims=True), yb - yb.mean(axis=1, keepdims=True), rtol=0, atol=4e-6), 'input_modified',
+                    'predict changed the trajectory it was given (beyond mdtraj moving frames to their centroid)')
+            ctx.hit('predict_on_trajectory')
         return
     P = C.Problem(ctx, want_ranks=False, max_frames=30)
     metric = P.sut_metric()
